@@ -13,7 +13,7 @@ pool totals (used / reserved size) as sums over blocks, the retention policy (nu
 fill pattern of memory.  Full-strength statement of the part that is still open:
   theorem reusable : Inv s → (a free run of n granules exists in a block of the pool that serves `size`) → `alloc size` maps no new block
 -/
-import AsmjitVerif.Lemmas.JitAllocCount
+import AsmjitVerif.Lemmas.JitAllocReuse
 import AsmjitVerif.Spec.JitAlloc
 namespace AsmjitVerif.JitAlloc
 
@@ -167,6 +167,27 @@ theorem query_exact {s : St} (h : Reachable s) {j : Nat} {hd : Handle} (e : s.ta
   congr 2
   · exact o1.symm
   · rw [o2]; congr 1; omega
+
+/-- the window invariant (every free granule inside `[search_start, search_end)`, cached bound on free runs, incremental mode)
+holds for every block of every reachable state -/
+theorem window_all_histories {s : St} (h : Reachable s) : ∀ b ∈ s.a.blocks, BWin b := by
+  obtain ⟨cfg, ops, hwf, rfl⟩ := h
+  exact AWin.finalState (Inv.init cfg hwf) (by intro b hb; simp [St.init, Alloc.init] at hb) ops
+
+/-- **Released (free) memory is reusable**: whenever some block of the pool that serves a request has enough consecutive free
+granules — wherever they are: behind `search_start`, in the middle after a release, at the end after a shrink — `alloc` places the span
+in an existing block; no new block is mapped.  (On the pinned tree this fails: defect C09-5.) -/
+theorem free_memory_reused {s : St} (h : Reachable s) (req : Nat) (h0 : alignUp req s.a.cfg.gran ≠ 0)
+    (hmax : ¬ alignUp req s.a.cfg.gran - 1 ≥ 2147483647)
+    (hroom : ∃ b ∈ s.a.blocks, b.pool = sizeToPoolId s.a.cfg (alignUp req s.a.cfg.gran) ∧
+      HasRun b ((alignUp req s.a.cfg.gran + s.a.cfg.poolGran (sizeToPoolId s.a.cfg (alignUp req s.a.cfg.gran)) - 1) /
+        s.a.cfg.poolGran (sizeToPoolId s.a.cfg (alignUp req s.a.cfg.gran)))) :
+    (step s (.alloc req)).1.a.blocks.map (·.id) = s.a.blocks.map (·.id) := by
+  have hI := reachable_inv h
+  have hW := window_all_histories h
+  have := (allocIn_win hI.toAInv hW h0 (alignUp_mod _ _)).2 hroom
+  simp only [step, Alloc.alloc, h0, hmax, if_false]
+  rcases hr : s.a.allocIn (alignUp req s.a.cfg.gran) with ⟨a', (e | sp)⟩ <;> (rw [hr] at this; exact this)
 
 /-- **Foreign / unknown blocks are rejected without touching the state** (lookup by address fails) -/
 theorem unknown_block_rejected (a : Alloc) (blk off n : Nat) (hnone : a.findBlock blk = none) :
